@@ -17,7 +17,7 @@ def render_schema(schema, rng, fmt=None):
         decl = False
         if rng.random() < 0.2:
             decl = rng.choice([True, ["ID"], ["ID", "String"], ["Int", "Float", "Boolean"]])
-        text = render_sdl(schema, rng, extend=rng.random() < 0.3, comments=rng.random() < 0.3, multiline=rng.random() < 0.7, declare_builtins=decl, tags=rng.random() < 0.3)
+        text = render_sdl(schema, rng, extend=rng.random() < 0.3, comments=rng.random() < 0.3, multiline=rng.random() < 0.7, declare_builtins=decl, tags=rng.random() < 0.5)
         ext = rng.choice(["graphql", "graphql", "graphqls", "gql"])
     else:
         text = render_json(schema, wrapped=(fmt == "json-data"), builtins=rng.choice(["none", "scalars", "all"]),
@@ -44,6 +44,11 @@ def support_for(schema, options):
             ee[rn] = list(schema.types[e]["values"])
     if ee:
         sup["extern_enums"] = ee
+    sp = options.get("serde_path") or ""
+    if sp.startswith("crate::"):
+        # a re-export of serde inside the consumer crate: crate::<case module>::<module>::<name>
+        parts = sp.split("::")
+        sup["serde_reexport"] = [parts[-2], parts[-1]]
     return sup
 
 
